@@ -42,12 +42,13 @@ func c02(p *core.Prog, res *core.Result) {
 	res.Explanation = "C02 (load-elision accounting): a step whose processor reads element properties must be known to the 'which outputs are needed' analysis, because every step that analysis does not mention is compiled with loadData=false and the embedded driver honours that for edges. " +
 		"L1: D ⊆ H where D = statement kinds whose processor's Process reaches jsonpath.GetDoc in the VTA call graph (computed) and H = kinds with an arm in inspect.PipelineStepOutputs that records an output; " +
 		"L2: for every kind in D whose field paths are client strings, the arm resolves the path's namespace (a `$mark.field` path must mark the step where the mark was set); " +
-		"L3: the pipeline state (step ids, needed outputs) is computed from the statement list that is actually compiled (after the optimisers ran); " +
+		"L5: PipelineStepOutputs walks the statements backwards and accumulates requirements per step, so an assignment of a list that lacks the wildcard to an entry is allowed only on the path where the entry was absent (guard `_, ok := out[k]` with the bare condition ok / !ok); L3: the pipeline state (step ids, needed outputs) is computed from the statement list that is actually compiled (after the optimisers ran); " +
 		"L4: every kind whose compile arm consults StepLoadData() either advances the step id in PipelineSteps or is a start step."
 	res.NotDecided = []string{"that the index-start rewrite preserves answers", "count() = number of rows", "equivalence of filter spellings", "that an arm, once present, requests the right fields"}
 	res.Rule("L1", "every data-reading statement kind has a recording arm in PipelineStepOutputs", 8)
 	res.Rule("L2", "arms of kinds that take client field paths resolve the path namespace", 2)
 	res.Rule("L3", "pipeline state is computed after the optimisers", 1)
+	res.Rule("L5", "the needed-outputs table only grows: an entry is replaced by less than everything only when it was absent", 1)
 	res.Rule("L4", "kinds that consult StepLoadData advance the step id or start the traversal", 10)
 
 	comp := p.Func("engine/core", "StatementProcessor")
@@ -62,6 +63,7 @@ func c02(p *core.Prog, res *core.Result) {
 	for _, fi := range []*core.FuncInfo{comp, outs, steps} {
 		res.Fn(core.FuncKey(fi.Obj))
 	}
+	c02monotone(p, res, outs, "L5")
 	cinfo := comp.Pkg.TypesInfo
 	arms, _, ts := typeSwitchCases(cinfo, comp.Decl.Body, "isGraphStatement_Statement")
 	if ts == nil || len(arms) < 30 {
@@ -297,5 +299,98 @@ func c02(p *core.Prog, res *core.Result) {
 		default:
 			res.Bad("L4", "PipelineSteps|"+name, p.Pos(cc.Pos()), fmt.Sprintf("statement kind %s consults StepLoadData() but PipelineSteps does not advance the step id for it: it shares the load decision of the previous step and the outputs recorded for it are attributed to the wrong element", name))
 		}
+	}
+}
+
+
+// c02monotone (L5): out[k] = []string{…} without "*" may run only where out[k] was absent.
+func c02monotone(p *core.Prog, res *core.Result, fi *core.FuncInfo, rule string) {
+	info := fi.Pkg.TypesInfo
+	fkey := core.FuncKey(fi.Obj)
+	n := 0
+	type guard struct {
+		key    string
+		absent bool // on this branch the entry is known to be absent
+	}
+	var walk func(node ast.Node, gs []guard)
+	walk = func(node ast.Node, gs []guard) {
+		ast.Inspect(node, func(x ast.Node) bool {
+			if x == node {
+				return true
+			}
+			switch y := x.(type) {
+			case *ast.IfStmt:
+				// if v, ok := out[k]; ok { present } else { absent }
+				key, okObj := "", types.Object(nil)
+				if as, isAs := y.Init.(*ast.AssignStmt); isAs && len(as.Lhs) == 2 && len(as.Rhs) == 1 {
+					if ix, isIx := ast.Unparen(as.Rhs[0]).(*ast.IndexExpr); isIx {
+						if id, isId := ast.Unparen(ix.X).(*ast.Ident); isId && id.Name == "out" {
+							key = types.ExprString(ix.Index)
+							okObj = defOrUse(info, as.Lhs[1])
+						}
+					}
+				}
+				thenAbs, elseAbs := false, false
+				if key != "" && okObj != nil {
+					switch c := ast.Unparen(y.Cond).(type) {
+					case *ast.Ident:
+						if info.Uses[c] == okObj {
+							elseAbs = true
+						}
+					case *ast.UnaryExpr:
+						if id, isId := ast.Unparen(c.X).(*ast.Ident); isId && c.Op == token.NOT && info.Uses[id] == okObj {
+							thenAbs = true
+						}
+					}
+				}
+				walk(y.Body, append(append([]guard{}, gs...), guard{key, thenAbs}))
+				if y.Else != nil {
+					walk(y.Else, append(append([]guard{}, gs...), guard{key, elseAbs}))
+				}
+				return false
+			case *ast.AssignStmt:
+				for i, l := range y.Lhs {
+					ix, isIx := ast.Unparen(l).(*ast.IndexExpr)
+					if !isIx || i >= len(y.Rhs) {
+						continue
+					}
+					if id, isId := ast.Unparen(ix.X).(*ast.Ident); !isId || id.Name != "out" {
+						continue
+					}
+					cl, isLit := ast.Unparen(y.Rhs[i]).(*ast.CompositeLit)
+					if !isLit {
+						continue // append(x, …) and the like extend the entry
+					}
+					all := false
+					for _, el := range cl.Elts {
+						if tv, ok := info.Types[el]; ok && tv.Value != nil && tv.Value.ExactString() == `"*"` {
+							all = true
+						}
+					}
+					if all {
+						continue
+					}
+					n++
+					k := types.ExprString(ix.Index)
+					key := fmt.Sprintf("%s|out[%s]=%s#%d", fkey, k, types.ExprString(cl), n)
+					absent := false
+					for _, g := range gs {
+						if g.key == k && g.absent {
+							absent = true
+						}
+					}
+					if absent {
+						res.OK(rule, key, p.Pos(y.Pos()), "assigned only where the entry was absent")
+					} else {
+						res.Bad(rule, key, p.Pos(y.Pos()), fmt.Sprintf("%s sets out[%s] to %s at %s on a path where the entry may already exist: a requirement recorded by a later statement of the same step (has(), render …) is thrown away, the step is compiled with loadData=false and those statements see elements without properties", fkey, k, types.ExprString(cl), p.Pos(y.Pos())))
+					}
+				}
+			}
+			return true
+		})
+	}
+	walk(fi.Decl.Body, nil)
+	if n == 0 {
+		res.OKTrivial(rule, fkey+"|no partial assignment", p.Pos(fi.Decl.Pos()), "no entry is ever set to less than everything")
 	}
 }
